@@ -729,8 +729,12 @@ func (q *checker) unify(branches [][]*a.Expr) error {
 
 	m := map[string]int{}
 	for _, b := range branches {
+		seen := map[string]bool{}
 		for _, f := range b {
-			m[f.Str(q.tm)]++
+			if s := f.Str(q.tm); !seen[s] {
+				seen[s] = true
+				m[s]++
+			}
 		}
 	}
 
